@@ -152,6 +152,28 @@ func c10Leaf(x *mc.Exec) {
 			}
 		}
 	}
+	// one instant read in two zones: chronologically equal
+	if k.Type == j.AttrTypeTime {
+		for _, op := range c10Ops {
+			for _, pair := range [][2]time.Time{{TimeAlph[4], TimeAlph[4].UTC()}, {TimeAlph[5].UTC(), TimeAlph[5]}, {TimeAlph[4], TimeAlph[4].In(zMinus)}} {
+				var rv, fv any = pair[0], pair[1]
+				if k.Nullable {
+					rv, fv = Ptr(pair[0]), Ptr(pair[1])
+				}
+				res := d.NewRes(soft)
+				res.Set("a", rv)
+				want, class := refLeaf(op, rv, fv)
+				var got bool
+				p := Try(func() { got = (&j.Filter{Field: "a", Op: op, Val: fv}).IsAllowed(res) })
+				x.R.Add("transitions", 1)
+				x.R.Mark("nontrivial", mc.Hash(impl, k.String(), op, "zones", pair[0].String()))
+				if p != "" || got != want {
+					x.Fail(fmt.Sprintf("C10:leaf:%s:%s:op%s:%s:same-instant-other-zone", impl, k, op, class),
+						"%s resource of kind %s: (%s %q %s) = %v (panic %q), reference says %v", impl, k, ShowVal(rv), op, ShowVal(fv), got, p, want)
+				}
+			}
+		}
+	}
 	// the filter value is the very object the resource holds (a program filtering by a value it
 	// took from a resource): same verdicts as for an equal value
 	for _, op := range c10Ops {
